@@ -16,31 +16,31 @@ import (
 // Choice-site justifications (construct -> reason). One line each, one of:
 // unique match / equivalent candidates / diagnostic only / key-determined.
 var choiceJustified = map[string]string{
-	"netpol/connlist.(*ConnlistAnalyzer).warnBlockedIngress: constant index on unordered slice ingressObjects[parser.Ingress][0]":                                                                                                      "diagnostic only: names one of the blocked Ingress objects in a warning text, which is not an output root",
-	"netpol/connlist.(*ConnlistAnalyzer).warnBlockedIngress: constant index on unordered slice ingressObjects[parser.Route][0]":                                                                                                        "diagnostic only: names one of the blocked Route objects in a warning text",
-	"netpol/connlist/internal/ingressanalyzer.(*IngressAnalyzer).allowedIngressConnectionsByResourcesType: keyed store res[peer.String()] not keyed by the loop variable (last-wins / first-wins)":                                     "equivalent candidates: guarded insert keyed by the peer string; every Peer with that string is the same workload and the connection sets are merged by the commutative Union in the else branch",
-	"netpol/connlist/internal/ingressanalyzer.(*IngressAnalyzer).allowedIngressConnectionsByResourcesType: keyed store res[peer.String()].IngressObjects[ingType] not keyed by the loop variable (last-wins / first-wins)":             "diagnostic only: the list of ingress objects per peer is used for the blocked-ingress warning text only",
-	"netpol/diff.(mapListConnPairs).mergeBySrcOrDstIPPeers: constant index on unordered slice srcOrdstIPgroup[0]":                                                                                                                      "equivalent candidates: all members of a group share the grouping key (non-IP end, conn1, conn2), and only these attributes are read from the representative (key completeness, rule C04-d)",
-	"netpol/diff.getIPblocksFromConnList: keyed store peersMap[p2p.Dst().String()] not keyed by the loop variable (last-wins / first-wins)":                                                                                            "key-determined: the stored peer is the one whose String() is the key",
-	"netpol/diff.getIPblocksFromConnList: keyed store peersMap[p2p.Src().String()] not keyed by the loop variable (last-wins / first-wins)":                                                                                            "key-determined: the stored peer is the one whose String() is the key",
-	"netpol/eval.(*PolicyEngine).changePodPeerToAnotherPodObject: first-match break in unordered loop":                                                                                                                                 "equivalent candidates: any other pod of the same owner; pods of one owner have equal labels (checkConsistentLabelsForPodsOfSameOwner, C19) and the same namespace",
-	"netpol/eval.(*PolicyEngine).changePodPeerToAnotherPodObject: last-wins assignment to peer.Pod":                                                                                                                                    "equivalent candidates: see the first-match break of the same loop",
-	"netpol/eval.(*PolicyEngine).createPodOwnersMap: keyed store res[workload.String()] not keyed by the loop variable (last-wins / first-wins)":                                                                                       "equivalent candidates: keyed by the workload string; pods of one owner are interchangeable representatives (equal labels enforced in the same loop)",
-	"netpol/eval.(*PolicyEngine).updatePodOwnersToRepresentativePodMapIfRequired: first-match return  in unordered loop":                                                                                                               "equivalent candidates: any remaining pod of the owner may become its representative (used only to compare labels of later pods)",
-	"netpol/eval.(*PolicyEngine).updatePodOwnersToRepresentativePodMapIfRequired: keyed store pe.podOwnersToRepresentativePodMap[deletedPod.Namespace][deletedPod.Owner.Name] not keyed by the loop variable (last-wins / first-wins)": "equivalent candidates: see the first-match return of the same loop",
-	"netpol/eval.addDisjointIPBlockToMap: first-match break in unordered loop":                                                                                                                                                         "unique match: the blocks of one set are pairwise disjoint (IP peers of one report), so at most one contains the disjoint block",
-	"netpol/eval.diffBetweenPodsLabels: first-match return key,\"\",value in unordered loop":                                                                                                                                           "diagnostic only: which differing label the inconsistent-labels error names",
-	"netpol/eval.diffBetweenPodsLabels: first-match return key,firstPod.Labels[key],value in unordered loop":                                                                                                                           "diagnostic only: which differing label the inconsistent-labels error names",
-	"netpol/eval.diffBetweenPodsLabels: first-match return key,val,\"\" in unordered loop":                                                                                                                                             "diagnostic only: which differing label the inconsistent-labels error names",
-	"netpol/eval.mergeIPBlocksList: constant index on unordered slice inputList[0]":                                                                                                                                                    "set semantics: element 0 only seeds a reduce by the commutative, associative, idempotent IPBlock.Union; the result is split by the library in address order",
-	"netpol/connlist.(peerXgressExposureMap).addPeer: per-element store m[peer] whose value is not determined by its key (first/last element wins)":                                                                                    "equivalent candidates: the first visit of a peer freezes isProtected; the pod's protection flag for a direction is complete after the first query in that direction (all selecting policies are folded in one call, C06-c), so every later visit would store the same value",
-	"netpol/eval.(*PolicyEngine).deleteAdminNetworkPolicy: first-match break in unordered loop":                                                                                                                                        "unique match: pointer identity with the object being deleted",
-	"netpol/eval.(*PolicyEngine).insertNamespace: per-element store pe.namespacesMap[nsObj.Name] whose value is not determined by its key (first/last element wins)":                                                                   "assumes a valid cluster: namespace names are unique (API-server invariant); InsertObject is documented as insert-or-update, so for a duplicate the later document wins",
-	"netpol/eval.(*PolicyEngine).insertPod: per-element store pe.podsMap[podStr.String()] whose value is not determined by its key (first/last element wins)":                                                                          "assumes a valid cluster: pod names are unique per namespace (API-server invariant); InsertObject is insert-or-update",
-	"netpol/eval.(*PolicyEngine).sortAdminNetpolsByPriority: constant index on unordered slice pe.sortedAdminNetpols[0]":                                                                                                               "unique match: dominated by len(...) == 1",
-	"netpol/eval/internal/k8s.(*Pod).ConvertPodNamedPort: first-match return string(containerPort.Protocol),containerPort.ContainerPort in unordered loop":                                                                             "unique match: container port names are unique within a pod (API validation), so at most one entry has the name",
-	"netpol/eval/internal/k8s.(*Pod).ConvertPodNamedPort: first-match return string(corev1.ProtocolTCP),containerPort.ContainerPort in unordered loop":                                                                                 "unique match: container port names are unique within a pod (API validation)",
-	"netpol/internal/common.(*ConnectionSet).Contains: first-match return allowedPorts.Contains(int64(intPort)) in unordered loop":                                                                                                     "unique match: protocol keys are distinct under EqualFold for the three valid protocols",
+	"netpol/connlist.(*ConnlistAnalyzer).warnBlockedIngress: constant index on unordered slice ‹map[string][]string›[parser.Ingress][0]":                                                                                                                                           "diagnostic only: names one of the blocked Ingress objects in a warning text, which is not an output root",
+	"netpol/connlist.(*ConnlistAnalyzer).warnBlockedIngress: constant index on unordered slice ‹map[string][]string›[parser.Route][0]":                                                                                                                                             "diagnostic only: names one of the blocked Route objects in a warning text",
+	"netpol/connlist/internal/ingressanalyzer.(*IngressAnalyzer).allowedIngressConnectionsByResourcesType: keyed store ‹map[string]*ingressanalyzer.PeerAndIngressConnSet›[‹eval.Peer›.String()] not keyed by the loop variable (last-wins / first-wins)":                          "equivalent candidates: guarded insert keyed by the peer string; every Peer with that string is the same workload and the connection sets are merged by the commutative Union in the else branch",
+	"netpol/connlist/internal/ingressanalyzer.(*IngressAnalyzer).allowedIngressConnectionsByResourcesType: keyed store ‹map[string]*ingressanalyzer.PeerAndIngressConnSet›[‹eval.Peer›.String()].IngressObjects[‹string›] not keyed by the loop variable (last-wins / first-wins)": "diagnostic only: the list of ingress objects per peer is used for the blocked-ingress warning text only",
+	"netpol/diff.(mapListConnPairs).mergeBySrcOrDstIPPeers: constant index on unordered slice ‹[]*diff.connsPair›[0]":                                                                                                                                                              "equivalent candidates: all members of a group share the grouping key (non-IP end, conn1, conn2), and only these attributes are read from the representative (key completeness, rule C04-d)",
+	"netpol/diff.getIPblocksFromConnList: keyed store ‹map[string]eval.Peer›[‹connlist.Peer2PeerConnection›.Dst().String()] not keyed by the loop variable (last-wins / first-wins)":                                                                                               "key-determined: the stored peer is the one whose String() is the key",
+	"netpol/diff.getIPblocksFromConnList: keyed store ‹map[string]eval.Peer›[‹connlist.Peer2PeerConnection›.Src().String()] not keyed by the loop variable (last-wins / first-wins)":                                                                                               "key-determined: the stored peer is the one whose String() is the key",
+	"netpol/eval.(*PolicyEngine).changePodPeerToAnotherPodObject: first-match break in unordered loop":                                                                                                                                                                             "equivalent candidates: any other pod of the same owner; pods of one owner have equal labels (checkConsistentLabelsForPodsOfSameOwner, C19) and the same namespace",
+	"netpol/eval.(*PolicyEngine).changePodPeerToAnotherPodObject: last-wins assignment to ‹*k8s.PodPeer›.Pod":                                                                                                                                                                      "equivalent candidates: see the first-match break of the same loop",
+	"netpol/eval.(*PolicyEngine).createPodOwnersMap: keyed store ‹map[string]eval.Peer›[‹*k8s.WorkloadPeer›.String()] not keyed by the loop variable (last-wins / first-wins)":                                                                                                     "equivalent candidates: keyed by the workload string; pods of one owner are interchangeable representatives (equal labels enforced in the same loop)",
+	"netpol/eval.(*PolicyEngine).updatePodOwnersToRepresentativePodMapIfRequired: first-match return  in unordered loop":                                                                                                                                                           "equivalent candidates: any remaining pod of the owner may become its representative (used only to compare labels of later pods)",
+	"netpol/eval.(*PolicyEngine).updatePodOwnersToRepresentativePodMapIfRequired: keyed store ‹*eval.PolicyEngine›.podOwnersToRepresentativePodMap[‹*k8s.Pod›.Namespace][‹*k8s.Pod›.Owner.Name] not keyed by the loop variable (last-wins / first-wins)":                           "equivalent candidates: see the first-match return of the same loop",
+	"netpol/eval.addDisjointIPBlockToMap: first-match break in unordered loop":                                                                                                                                                                                                     "unique match: the blocks of one set are pairwise disjoint (IP peers of one report), so at most one contains the disjoint block",
+	"netpol/eval.diffBetweenPodsLabels: first-match return ‹string›,\"\",‹string› in unordered loop":                                                                                                                                                                               "diagnostic only: which differing label the inconsistent-labels error names",
+	"netpol/eval.diffBetweenPodsLabels: first-match return ‹string›,‹*k8s.Pod›.Labels[‹string›],‹string› in unordered loop":                                                                                                                                                        "diagnostic only: which differing label the inconsistent-labels error names",
+	"netpol/eval.diffBetweenPodsLabels: first-match return ‹string›,‹string›,\"\" in unordered loop":                                                                                                                                                                               "diagnostic only: which differing label the inconsistent-labels error names",
+	"netpol/eval.mergeIPBlocksList: constant index on unordered slice ‹[]*netset.IPBlock›[0]":                                                                                                                                                                                      "set semantics: element 0 only seeds a reduce by the commutative, associative, idempotent IPBlock.Union; the result is split by the library in address order",
+	"netpol/connlist.(peerXgressExposureMap).addPeer: per-element store ‹connlist.peerXgressExposureMap›[‹connlist.Peer›] whose value is not determined by its key (first/last element wins)":                                                                                      "equivalent candidates: the first visit of a peer freezes isProtected; the pod's protection flag for a direction is complete after the first query in that direction (all selecting policies are folded in one call, C06-c), so every later visit would store the same value",
+	"netpol/eval.(*PolicyEngine).deleteAdminNetworkPolicy: first-match break in unordered loop":                                                                                                                                                                                    "unique match: pointer identity with the object being deleted",
+	"netpol/eval.(*PolicyEngine).insertNamespace: per-element store ‹*eval.PolicyEngine›.namespacesMap[‹*k8s.Namespace›.Name] whose value is not determined by its key (first/last element wins)":                                                                                  "assumes a valid cluster: namespace names are unique (API-server invariant); InsertObject is documented as insert-or-update, so for a duplicate the later document wins",
+	"netpol/eval.(*PolicyEngine).insertPod: per-element store ‹*eval.PolicyEngine›.podsMap[‹types.NamespacedName›.String()] whose value is not determined by its key (first/last element wins)":                                                                                    "assumes a valid cluster: pod names are unique per namespace (API-server invariant); InsertObject is insert-or-update",
+	"netpol/eval.(*PolicyEngine).sortAdminNetpolsByPriority: constant index on unordered slice ‹*eval.PolicyEngine›.sortedAdminNetpols[0]":                                                                                                                                         "unique match: dominated by len(...) == 1",
+	"netpol/eval/internal/k8s.(*Pod).ConvertPodNamedPort: first-match return string(‹v1.ContainerPort›.Protocol),‹v1.ContainerPort›.ContainerPort in unordered loop":                                                                                                               "unique match: container port names are unique within a pod (API validation), so at most one entry has the name",
+	"netpol/eval/internal/k8s.(*Pod).ConvertPodNamedPort: first-match return string(corev1.ProtocolTCP),‹v1.ContainerPort›.ContainerPort in unordered loop":                                                                                                                        "unique match: container port names are unique within a pod (API validation)",
+	"netpol/internal/common.(*ConnectionSet).Contains: first-match return ‹*common.PortSet›.Contains(int64(‹int›)) in unordered loop":                                                                                                                                              "unique match: protocol keys are distinct under EqualFold for the three valid protocols",
 }
 
 func init() {
